@@ -103,6 +103,10 @@ fn second_case(s: &Spec, stored_auth: Option<Vec<u8>>, stored_session: Option<Ve
     if s.second == "after-expiry" {
         case.cfg.expiry = 0;
     }
+    if s.second == "same-huge-expiry" {
+        // the largest configurable expiry: the cookie can never be too old
+        case.cfg.expiry = u64::MAX;
+    }
     let intent = if s.second == "login-intent" { 2 } else { 3 };
     let asked = intent == 3 && secret(s).is_some();
     // the verdict of the second connection's own authentication differs from the first one's
@@ -229,11 +233,12 @@ fn judge(s: &Spec, c1: &Case, o1: &Obs, o2: &Obs, o1b: &Obs, bracket: (u64, u64)
     let auth_calls = o2.calls.iter().filter(|c| c.kind() == "authenticate").count();
     let success = o2.packets.iter().find_map(|(_, p)| if let Pkt::LoginSuccess { uuid, name, .. } = p { Some((name.clone(), *uuid)) } else { None });
     let presented = sec.is_some() && auth1.len() == 1 && s.second != "login-intent";
-    let accept = presented && matches!(s.second.as_str(), "same" | "other-port");
+    let accept = presented && matches!(s.second.as_str(), "same" | "other-port" | "same-huge-expiry");
     if accept {
         if flag != Some(false) || auth_calls != 0 || success != Some((name.clone(), uuid)) {
             let fam = if c1.cfg.client_addr.is_ipv4() { "ipv4" } else if s.addr == "v4-mapped" { "ipv4-mapped" } else { "ipv6" };
             bad(&format!("stored-cookie-not-accepted:{}:{fam}", s.second), format!("second connection: flag {flag:?}, authentication calls {auth_calls}, Login Success {success:?}; expected to be admitted as ({name}, {}) without re-authentication", uuid_text(uuid)));
+            return v;
         }
         // routing sees the cookie's identity
         for c in &o2.calls {
@@ -281,7 +286,7 @@ fn specs(thorough: bool) -> Vec<Spec> {
     let hosts = ["name", "empty", "port0"];
     let addrs = ["v4", "v6", "v4-mapped"];
     let secrets = ["none", "empty", "1", "64", "65", "200"];
-    let seconds = ["same", "other-port", "other-ip", "login-intent"];
+    let seconds = ["same", "other-port", "other-ip", "login-intent", "same-huge-expiry"];
     let mut v = vec![];
     let mut k = 0usize;
     for a in addrs {
@@ -387,7 +392,7 @@ pub fn run(cli: Cli) -> ! {
     rep.set("second_admitted_by_cookie", json!(accepted.load(Ordering::Relaxed)));
     rep.set("second_reauthenticated", json!(reauth.load(Ordering::Relaxed)));
     rep.set("exhaustive", json!(true));
-    rep.set("rule", json!("two-connection histories (the first one run twice for the freshness of the session id): client address family(3) x secret(6) x prior session cookie(2) x second connection(same, other port, other IP, Login intent) complete; identity(4) x properties(3) x target identifier(4) x handshake host/port(3) complete in thorough, rotated in quick; plus three histories whose second connection comes after the expiry (real time). distinct_nontrivial = distinct (first trace, second trace, calls)."));
+    rep.set("rule", json!("two-connection histories (the first one run twice for the freshness of the session id): client address family(3) x secret(6) x prior session cookie(2) x second connection(same, other port, other IP, Login intent, same under the largest configurable expiry) complete; identity(4) x properties(3) x target identifier(4) x handshake host/port(3) complete in thorough, rotated in quick; plus three histories whose second connection comes after the expiry (real time). distinct_nontrivial = distinct (first trace, second trace, calls)."));
     rep.sample(json!({"spec": all[0]}));
     rep.sample(json!({"spec": all[all.len() - 1], "note": "second connection after expiry (2.1 s of real time, expiry 0)"}));
     rep.assume("on the cookie-authenticated path the presence of a refreshed cookie is not judged (if one is issued it must verify and carry the cookie's identity)");
